@@ -278,7 +278,18 @@ func runFwOp(o *FwOp, rng *RNG, objs *fwObjects) (out string) {
 		c := objs.certCache[key]
 		if c == nil {
 			var err error
-			c, _, err = buildViewCert(o.View, o.Target, o.Offset)
+			if o.Target.Year() < 1 {
+				// an instant no encoder here writes (year 0 and before): the object is parsed with another date and the
+				// dating field set on the parsed value — Lint*Ex takes any *x509.Certificate
+				c, _, err = buildViewCert(o.View, time.Unix(fwE, 0).UTC(), false)
+				if err == nil {
+					cp := *c
+					cp.NotBefore, cp.NotAfter = o.Target, o.Target.Add(30*24*time.Hour)
+					c = &cp
+				}
+			} else {
+				c, _, err = buildViewCert(o.View, o.Target, o.Offset)
+			}
 			if err != nil {
 				return "builderr:" + err.Error()
 			}
@@ -307,7 +318,16 @@ func runFwOp(o *FwOp, rng *RNG, objs *fwObjects) (out string) {
 		c := objs.crlCache[o.Target.Unix()]
 		if c == nil {
 			var err error
-			c, _, err = buildCRL(o.Target, o.Target.Add(24*time.Hour))
+			if o.Target.Year() < 1 {
+				c, _, err = buildCRL(time.Unix(fwE, 0).UTC(), time.Unix(fwE, 0).UTC().Add(24*time.Hour))
+				if err == nil {
+					cp := *c
+					cp.ThisUpdate, cp.NextUpdate = o.Target, o.Target.Add(24*time.Hour)
+					c = &cp
+				}
+			} else {
+				c, _, err = buildCRL(o.Target, o.Target.Add(24*time.Hour))
+			}
 			if err != nil {
 				return "builderr:" + err.Error()
 			}
@@ -332,7 +352,17 @@ func runFwOp(o *FwOp, rng *RNG, objs *fwObjects) (out string) {
 		if c == nil {
 			var err error
 			// the OCSP window is read from NextUpdate
-			c, _, err = buildOCSP(o.Target.Add(-48*time.Hour), o.Target, o.Target.Add(-47*time.Hour))
+			if o.Target.Year() < 1 {
+				b := time.Unix(fwE, 0).UTC()
+				c, _, err = buildOCSP(b.Add(-48*time.Hour), b, b.Add(-47*time.Hour))
+				if err == nil {
+					cp := *c
+					cp.ThisUpdate, cp.NextUpdate, cp.ProducedAt = o.Target.Add(-48*time.Hour), o.Target, o.Target.Add(-47*time.Hour)
+					c = &cp
+				}
+			} else {
+				c, _, err = buildOCSP(o.Target.Add(-48*time.Hour), o.Target, o.Target.Add(-47*time.Hour))
+			}
 			if err != nil {
 				return "builderr:" + err.Error()
 			}
@@ -528,6 +558,18 @@ func windowCases() []winCase {
 	// inverted window (ineff before eff) and zero-date-like metadata (year 0, as util.ZeroDate)
 	out = append(out, winCase{fmt.Sprintf("%d.0", fwI), fmt.Sprintf("%d.0", fwE), fwE + 5, "inverted"})
 	out = append(out, winCase{"-62167219200.0", "Z", fwE, "year0"})
+	// util.ZeroDate (0000-01-01, one year before Go's zero time.Time) is a real instant that ~50 registered lints carry as their
+	// effective date: objects dated one second before it, at it and after it — and the same instant as an *ineffective* date
+	const zd = int64(-62167219200)
+	for _, t := range []struct {
+		t int64
+		l string
+	}{{zd - 1, "ZD-1"}, {zd, "ZD"}, {zd + 1, "ZD+1"}, {zd - 86400*400, "ZD-400d"}} {
+		out = append(out, winCase{"-62167219200.0", "Z", t.t, "effZD" + t.l})
+		out = append(out, winCase{"-62167219200.0", fmt.Sprintf("%d.0", fwI), t.t, "effZDi" + t.l})
+	}
+	out = append(out, winCase{"Z", "-62167219200.0", zd - 1, "ineffZD-1"}, winCase{"Z", "-62167219200.0", zd, "ineffZD"}, winCase{"Z", "-62167219200.0", fwE, "ineffZD-later"},
+		winCase{"-62167219200.0", "-62167219200.0", zd, "emptyZD"}, winCase{"-62167219200.0", "-62167219200.0", fwE, "emptyZD-later"})
 	return out
 }
 
